@@ -184,16 +184,16 @@ def if_then_else(c, a, b):
     return a if c else b
 
 
-class Angle(float):
-    """user-defined (heap-allocated) GP types for the typed variant"""
+def make_heap_types():
+    """user-defined (heap-allocated) GP types for the typed variant; created when the family is set up so that
+    their addresses depend on what the process allocated before (pickled by reference: module attributes)"""
+    g = globals()
+    for name, base_ in (("Angle", float), ("Ratio", float), ("Flag", int)):
+        cls = type(name, (base_,), {"__module__": __name__})
+        g[name] = cls
 
 
-class Ratio(float):
-    pass
-
-
-class Flag(int):
-    pass
+make_heap_types()
 
 
 def angle_add(a, b):
@@ -328,6 +328,8 @@ class DelayedPoolMap(object):
         self.calls.append({"order": order, "inputs": [[int(b) for b in x] for x in xs] if self.record else None,
                            "results": [list(o[0]) for o in out] if self.record else None})
         self.pids.update(o[2] for o in out)
+        if os.environ.get("C17_SELFTEST_BADMAP") == "1":     # self-test of the oracle only: NOT order preserving
+            return [out[i][0] for i in order]
         return [o[0] for o in out]
 
     def close(self):
@@ -697,6 +699,7 @@ class GPTyped(GPSym):
         variant = self.params.get("variant", "heap")
         tb = self.toolbox
         if variant == "heap":
+            make_heap_types()
             pset = gp.PrimitiveSetTyped("MAIN", [Angle, Ratio], Angle)
             pset.addPrimitive(angle_add, [Angle, Angle], Angle)
             pset.addPrimitive(ratio_mul, [Ratio, Ratio], Ratio)
@@ -840,6 +843,276 @@ class MOCMA(Family):
         tb.update(pop)
         st["population"] = pop
         self.log(st, pop, gen=gen, nevals=len(pop))
+
+
+def generate_es(icls, scls, size, imin, imax, smin, smax):
+    ind = icls(random.uniform(imin, imax) for _ in range(size))
+    ind.strategy = scls(random.uniform(smin, smax) for _ in range(size))
+    return ind
+
+
+def check_strategy(minstrategy):
+    def decorator(func):
+        def wrapper(*args, **kargs):
+            children = func(*args, **kargs)
+            for child in children:
+                for i, s in enumerate(child.strategy):
+                    if s < minstrategy:
+                        child.strategy[i] = minstrategy
+            return children
+        return wrapper
+    return decorator
+
+
+class ES(Family):
+    """examples/es/fctmin.py: array('d') individuals carrying a strategy array attribute, (mu,lambda) loop."""
+    def setup(self):
+        creator.create("FitnessC17", base.Fitness, weights=(-1.0,))
+        creator.create("IndividualC17", array.array, typecode="d", fitness=creator.FitnessC17, strategy=None)
+        creator.create("StrategyC17", array.array, typecode="d")
+        tb = self.toolbox
+        tb.register("individual", generate_es, creator.IndividualC17, creator.StrategyC17, 6, 4, 5, 0.5, 3)
+        tb.register("population", tools.initRepeat, list, tb.individual)
+        tb.register("mate", tools.cxESBlend, alpha=0.1)
+        tb.register("mutate", tools.mutESLogNormal, c=1.0, indpb=0.3)
+        tb.register("select", tools.selTournament, tournsize=3)
+        tb.register("evaluate", ev_sphere)
+        tb.decorate("mate", check_strategy(0.5))
+        tb.decorate("mutate", check_strategy(0.5))
+        self.stats = self.std_stats()
+
+    def init(self):
+        pop = self.toolbox.population(n=6)
+        st = {"population": pop, "generation": 0, "halloffame": tools.HallOfFame(2), "logbook": self.new_logbook(),
+              "strategy": None}
+        n = self.evaluate_invalid(pop)
+        st["halloffame"].update(pop)
+        self.log(st, pop, gen=0, nevals=n)
+        return st
+
+    def step(self, st, gen):
+        tb = self.toolbox
+        pop = st["population"]
+        off = algorithms.varOr(pop, tb, 14, 0.6, 0.3)
+        n = self.evaluate_invalid(off)
+        st["halloffame"].update(off)
+        pop[:] = tb.select(off, 6)
+        self.log(st, pop, gen=gen, nevals=n)
+
+
+class Islands(Family):
+    """examples/ga/onemax_multidemic.py: three demes, eaSimple-shaped generation in each, tools.migRing every other
+    generation; the population of the checkpoint is the list of demes."""
+    def setup(self):
+        creator.create("FitnessC17", base.Fitness, weights=(1.0,))
+        creator.create("IndividualC17", list, fitness=creator.FitnessC17)
+        tb = self.toolbox
+        tb.register("attr_bool", random.randint, 0, 1)
+        tb.register("individual", tools.initRepeat, creator.IndividualC17, tb.attr_bool, 16)
+        tb.register("population", tools.initRepeat, list, tb.individual)
+        tb.register("evaluate", ev_onemax)
+        tb.register("mate", tools.cxTwoPoint)
+        tb.register("mutate", tools.mutFlipBit, indpb=0.05)
+        tb.register("select", tools.selTournament, tournsize=3)
+        tb.register("migrate", tools.migRing, k=2, selection=tools.selBest, replacement=random.sample)
+        self.stats = self.std_stats()
+
+    def init(self):
+        demes = [self.toolbox.population(n=6) for _ in range(3)]
+        st = {"population": demes, "generation": 0, "halloffame": tools.HallOfFame(2), "logbook": self.new_logbook(),
+              "strategy": None}
+        lb = st["logbook"]
+        lb.header = ["gen", "deme", "nevals"] + self.stats.fields
+        for i, d in enumerate(demes):
+            n = self.evaluate_invalid(d)
+            st["halloffame"].update(d)
+            lb.record(gen=0, deme=i, nevals=n, **self.stats.compile(d))
+        self.stream_text = lb.stream
+        return st
+
+    def step(self, st, gen):
+        tb = self.toolbox
+        lb = st["logbook"]
+        for i, d in enumerate(st["population"]):
+            off = tb.select(d, len(d))
+            off = algorithms.varAnd(off, tb, 0.5, 0.2)
+            n = self.evaluate_invalid(off)
+            st["halloffame"].update(off)
+            d[:] = off
+            lb.record(gen=gen, deme=i, nevals=n, **self.stats.compile(d))
+        if gen % 2 == 0:
+            tb.migrate(st["population"])
+        self.stream_text = lb.stream
+
+
+def ev_bits2(ind):
+    return (float(sum(ind)) + 1.0, float(sum(1 for a, b in zip(ind, ind[1:]) if a != b)) + 1.0)
+
+
+def ev_perm2(ind):
+    return (1.0 + sum(1 for i, x in enumerate(ind) if x == i), 1.0 + sum(abs(a - b) == 1 for a, b in zip(ind, ind[1:])))
+
+
+def ev_real2(ind):
+    return (100.0 / (1.0 + sum(x * x for x in ind)), 100.0 / (1.0 + sum((x - 1.0) ** 2 for x in ind)))
+
+
+GA_OPS = {
+    "sel": {
+        "tournament": lambda: partial(tools.selTournament, tournsize=3),
+        "roulette": lambda: tools.selRoulette,
+        "best": lambda: tools.selBest,
+        "worst": lambda: tools.selWorst,
+        "random": lambda: tools.selRandom,
+        "sus": lambda: tools.selStochasticUniversalSampling,
+        "double": lambda: partial(tools.selDoubleTournament, fitness_size=3, parsimony_size=1.4, fitness_first=True),
+        "lexicase": lambda: tools.selLexicase,
+        "eps_lexicase": lambda: partial(tools.selEpsilonLexicase, epsilon=0.5),
+        "auto_eps_lexicase": lambda: tools.selAutomaticEpsilonLexicase,
+        "nsga2": lambda: tools.selNSGA2,
+        "spea2": lambda: tools.selSPEA2,
+    },
+    "bits": {
+        "cx": {"one": lambda: tools.cxOnePoint, "two": lambda: tools.cxTwoPoint, "uniform": lambda: partial(tools.cxUniform, indpb=0.3),
+               "messy": lambda: tools.cxMessyOnePoint},
+        "mut": {"flip": lambda: partial(tools.mutFlipBit, indpb=0.1), "shuffle": lambda: partial(tools.mutShuffleIndexes, indpb=0.2),
+                "uniform_int": lambda: partial(tools.mutUniformInt, low=0, up=1, indpb=0.1), "inversion": lambda: tools.mutInversion},
+    },
+    "perm": {
+        "cx": {"pmx": lambda: tools.cxPartialyMatched, "upmx": lambda: partial(tools.cxUniformPartialyMatched, indpb=0.3),
+               "ordered": lambda: tools.cxOrdered},
+        "mut": {"shuffle": lambda: partial(tools.mutShuffleIndexes, indpb=0.2), "inversion": lambda: tools.mutInversion},
+    },
+    "real": {
+        "cx": {"blend": lambda: partial(tools.cxBlend, alpha=0.5), "sbx": lambda: partial(tools.cxSimulatedBinary, eta=10.0),
+               "sbx_bounded": lambda: partial(tools.cxSimulatedBinaryBounded, eta=10.0, low=-3.0, up=3.0), "two": lambda: tools.cxTwoPoint},
+        "mut": {"gaussian": lambda: partial(tools.mutGaussian, mu=0.0, sigma=0.5, indpb=0.3),
+                "polynomial": lambda: partial(tools.mutPolynomialBounded, eta=10.0, low=-3.0, up=3.0, indpb=0.3)},
+    },
+}
+
+
+def perm_individual(icls, n):
+    return icls(random.sample(range(n), n))
+
+
+class GAOps(Family):
+    """eaSimple-shaped or (mu+lambda) loop over a chosen representation and chosen library operators
+    (params: repr, sel, cx, mut, loop): enumerates the operators of deap.tools for hidden state."""
+    def setup(self):
+        p = self.params
+        rep = p["repr"]
+        creator.create("FitnessC17", base.Fitness, weights=(1.0, 1.0))
+        creator.create("IndividualC17", list, fitness=creator.FitnessC17)
+        tb = self.toolbox
+        if rep == "bits":
+            tb.register("attr", random.randint, 0, 1)
+            tb.register("individual", tools.initRepeat, creator.IndividualC17, tb.attr, 14)
+            tb.register("evaluate", ev_bits2)
+        elif rep == "perm":
+            tb.register("individual", perm_individual, creator.IndividualC17, 9)
+            tb.register("evaluate", ev_perm2)
+        else:
+            tb.register("attr", random.uniform, -3.0, 3.0)
+            tb.register("individual", tools.initRepeat, creator.IndividualC17, tb.attr, 5)
+            tb.register("evaluate", ev_real2)
+        tb.register("population", tools.initRepeat, list, tb.individual)
+        tb.register("mate", GA_OPS[rep]["cx"][p["cx"]]())
+        tb.register("mutate", GA_OPS[rep]["mut"][p["mut"]]())
+        tb.register("select", GA_OPS["sel"][p["sel"]]())
+        self.stats = self.std_stats(axis=0)
+
+    def init(self):
+        pop = self.toolbox.population(n=10)
+        st = {"population": pop, "generation": 0, "halloffame": tools.ParetoFront(), "logbook": self.new_logbook(),
+              "strategy": None}
+        n = self.evaluate_invalid(pop)
+        st["halloffame"].update(pop)
+        self.log(st, pop, gen=0, nevals=n)
+        return st
+
+    def step(self, st, gen):
+        tb = self.toolbox
+        pop = st["population"]
+        if self.params.get("loop", "simple") == "simple":
+            off = [tb.clone(i) for i in tb.select(pop, len(pop))]
+            off = algorithms.varAnd(off, tb, 0.7, 0.4)
+            n = self.evaluate_invalid(off)
+            st["halloffame"].update(off)
+            pop[:] = off
+        else:
+            off = algorithms.varOr(pop, tb, 12, 0.5, 0.4)
+            n = self.evaluate_invalid(off)
+            st["halloffame"].update(off)
+            pop[:] = tb.select(pop + off, 10)
+        self.log(st, pop, gen=gen, nevals=n)
+
+
+class EALoops(Family):
+    """the packaged loops of deap/algorithms.py, one call with ngen=1 per generation (so that a checkpoint can be
+    taken between calls); their logbook record is appended to the persistent logbook under the global generation."""
+
+    def setup(self):
+        self.loop = self.params.get("loop", "simple")
+        self.stats = self.std_stats()
+        tb = self.toolbox
+        if self.loop == "genupd":
+            self.uses_strategy = True
+            creator.create("FitnessC17", base.Fitness, weights=(-1.0,))
+            creator.create("IndividualC17", list, fitness=creator.FitnessC17)
+            tb.register("evaluate", ev_sphere)
+            return
+        creator.create("FitnessC17", base.Fitness, weights=(1.0,))
+        creator.create("IndividualC17", list, fitness=creator.FitnessC17)
+        tb.register("attr_bool", random.randint, 0, 1)
+        tb.register("individual", tools.initRepeat, creator.IndividualC17, tb.attr_bool, 20)
+        tb.register("population", tools.initRepeat, list, tb.individual)
+        tb.register("evaluate", ev_onemax)
+        tb.register("mate", tools.cxTwoPoint)
+        tb.register("mutate", tools.mutFlipBit, indpb=0.1)
+        tb.register("select", tools.selTournament, tournsize=3)
+
+    def attach(self, st):
+        if self.loop == "genupd":
+            self.toolbox.register("generate", st["strategy"].generate, creator.IndividualC17)
+            self.toolbox.register("update", st["strategy"].update)
+
+    def call(self, st, ngen):
+        tb = self.toolbox
+        hof = st["halloffame"]
+        if self.loop == "simple":
+            return algorithms.eaSimple(st["population"], tb, 0.6, 0.3, ngen, stats=self.stats, halloffame=hof, verbose=False)
+        if self.loop == "plus":
+            return algorithms.eaMuPlusLambda(st["population"], tb, 10, 14, 0.5, 0.3, ngen, stats=self.stats, halloffame=hof,
+                                             verbose=False)
+        if self.loop == "comma":
+            return algorithms.eaMuCommaLambda(st["population"], tb, 10, 14, 0.5, 0.3, ngen, stats=self.stats, halloffame=hof,
+                                              verbose=False)
+        return algorithms.eaGenerateUpdate(tb, ngen, halloffame=hof, stats=self.stats, verbose=False)
+
+    def merge(self, st, lb, gen):
+        rec = dict(lb[-1])
+        rec["gen"] = gen
+        st["logbook"].record(**rec)
+        self.stream_text = st["logbook"].stream
+
+    def init(self):
+        st = {"generation": 0, "halloffame": tools.HallOfFame(3), "logbook": self.new_logbook(), "strategy": None}
+        if self.loop == "genupd":
+            st["population"] = []
+            st["strategy"] = cma.Strategy(centroid=[2.0] * 4, sigma=1.0, lambda_=8)
+            self.attach(st)
+            return st
+        st["population"] = self.toolbox.population(n=10)
+        pop, lb = self.call(st, 0)
+        st["population"] = pop
+        self.merge(st, lb, 0)
+        return st
+
+    def step(self, st, gen):
+        pop, lb = self.call(st, 1)
+        st["population"] = pop
+        self.merge(st, lb, gen)
 
 
 # --------------------------------------------------------------------------------------------
@@ -997,7 +1270,7 @@ def model_tokens(st, cursor):
 
 
 FAMILIES = {"ga": GAList, "ga_array": GAArray, "ga_numpy": GANumpy, "nsga2": NSGA2, "spea2": SPEA2, "nsga3": NSGA3,
-            "gp": GPSym, "gp_typed": GPTyped, "cma": CMA, "cma1pl": CMA1PL, "mocma": MOCMA, "modelga": ModelGA}
+            "gp": GPSym, "gp_typed": GPTyped, "cma": CMA, "cma1pl": CMA1PL, "mocma": MOCMA, "ealoops": EALoops, "es": ES, "islands": Islands, "ga_ops": GAOps, "modelga": ModelGA}
 
 CKPT_KEYS = ["population", "generation", "halloffame", "logbook", "strategy", "rndstate", "nprndstate"]
 
